@@ -14,23 +14,31 @@ META = {
     'text': 'PARTIAL. Proved (all schedules, any number of tasks/callers/keys, kernel-checked): two complete delivery orders of ComputePatches collect the same multiset of '
             'patches and, when Compare-equal patches are identical and target versions are all parsable or all unparsable, return the same list; Patch.Compare satisfies '
             'SortFunc\'s precondition among patches with >=1 update; the worklist terminates when the introducible vulnerabilities are finite; RequestCache: single flight per key, '
-            'no fetch started after a success until the next SetMap, fetch count <= failures + 1, every returned (v, err) was published by a fetch for the same key or installed by '
-            'SetMap, all parties of a call see one result; status ticker: over the regenerated table every pair of conflicting accesses to walkContext (ticker goroutine vs walker, one a '
+            'no fetch started after a success until the next SetMap, fetch count <= failures + 1; LINEARIZABLE w.r.t. the sequential map-with-fetch-on-miss whenever SetMap does not overlap '
+            'a fetch (explicit linearization: legal sequential history ending in the actual cache, every completed Get in it once with its real result at a point inside its interval, order = '
+            'real-time order) and provably NOT linearizable otherwise (decided witness); every returned (v, err) was published by a fetch for the same key or installed by SetMap, all parties '
+            'of a call see one result; every access to RequestCache.cache/.calls is under mu (regenerated table); status ticker: over the regenerated table every pair of conflicting accesses to walkContext (ticker goroutine vs walker, one a '
             'write) is lexically inside statusMu.Lock()/Unlock(). Tied to the code by enumerating every delivery order / interleaving of 2..4 patch attempts or cache lookups over 1..2 '
             'keys (success/error outcomes, SetMap) on the real code, at the granularity of the caller-supplied callbacks. RUNTIME ONLY (not proved): the Go memory model below callback / '
             'critical-section granularity and inside sync.Mutex/WaitGroup/channels; data-race freedom of the scan engine and the cache is observed with the race detector on the executed '
             'schedules only (all enumerated cache/patch schedules and whole scans lasting longer than the 2 s status interval); third-party clients\' internal locking is not covered.',
-    'note': 'Trusted: Lean kernel; the go/ast translator tickerdump (copies field names, access sites, lock regions faithfully; irregular lock shapes make the theorem fail); the Go '
+    'note': 'In model (a) the nondeterminism is the delivery order of attempt results; an attempt (with its resolve-client and matcher callbacks) is assumed to be a deterministic function '
+            'of its vuln-id list — an assumption, exercised by free runs through a shared stateful linearizable fake client, not a theorem. Theorems named _partial carry a hypothesis that '
+            'narrows the property (CmpEqImpliesEq, strict-weak-order of the version comparison on the versions present — false for mixed forms and, by C07, for Maven in general —, finiteness, '
+            'SetMap not overlapping a fetch). Trusted: Lean kernel; the go/ast translator tickerdump (copies field names, access sites, lock regions faithfully; irregular lock shapes make the theorem fail); the Go '
             'harness (gates inside callbacks, VerifWaiters reads the WaitGroup waiter count through an overlay export) and the line protocol; slices.SortFunc/CompactFunc by contract '
             '(for <=12 elements a stable insertion sort); Go race detector for the runtime part.',
 }
 NS = 'Scalibr.C16.'
 THEOREMS = [NS + t for t in [
-    'C16_confluent', 'C16_tasks_confluent', 'C16_final', 'C16_schedule_independent', 'C16_spec', 'C16_patchcmp_order', 'C16_patchcmp_order_parsed',
-    'C16_patchcmp_order_unparsed', 'C16_patchcmp_mixed_cycle', 'C16_patchcmp_needs_updates', 'C16_final_needs_cmpeq', 'C16_terminates', 'C16_terminates_needs_finite',
-    'C16_cache_inv', 'C16_cache_once', 'C16_cache_linear', 'C16_cache_content', 'C16_cache_shared', 'C16_ticker_guarded']]
+    'C16_confluent', 'C16_tasks_confluent', 'C16_final_partial', 'C16_schedule_independent_partial', 'C16_spec_partial', 'C16_patchcmp_order_partial',
+    'C16_patchcmp_order_parsed_partial', 'C16_patchcmp_order_unparsed', 'C16_patchcmp_mixed_cycle', 'C16_patchcmp_needs_updates', 'C16_final_needs_cmpeq',
+    'C16_terminates_partial', 'C16_terminates_needs_finite',
+    'C16_cache_inv', 'C16_cache_once', 'C16_cache_linearizable_partial', 'C16_cache_realtime', 'C16_cache_setmap_overlap_not_linearizable',
+    'C16_cache_provenance', 'C16_cache_content', 'C16_cache_shared', 'C16_ticker_guarded', 'C16_cache_guarded']]
 SITES = ['dopen', 'readdir', 'gitignore', 'stat', 'fopen', 'extract']
 TICKER_THEOREM = NS + 'C16_ticker_guarded'
+CACHETABLE_THEOREM = NS + 'C16_cache_guarded'
 COMPARE = ['res', 'ret', 'f', 'cls', 'maps']
 
 
@@ -158,7 +166,15 @@ def run(ctx):
                    'Go race detector (runtime part)']
     ctx.assumptions = ['granularity: one step = one caller-supplied callback returning / one critical section of RequestCache; the Go memory model below that and inside '
                        'sync.Mutex, sync.WaitGroup and channels is NOT modelled (runtime: race detector on the executed schedules only)',
-                       'patchFunc is a deterministic function of the vuln-id list and StrategyResult.VulnIDs is that list (true of override/relax)',
+                       'model (a): the nondeterminism is the delivery order of attempt results (= scheduling of the patch goroutines); ONE attempt is one step: patchFunc is assumed to be a '
+                       'deterministic function of the vuln-id list, i.e. the resolve client (Versions/Requirements/MatchingVersions) and the vulnerability matcher answer as functions of their '
+                       'arguments whatever runs concurrently, and attempts share no other mutable state (each works on Manifest.Clone()); StrategyResult.VulnIDs is the list handed in (true of '
+                       'override/relax). Interleavings INSIDE an attempt at callback granularity are not modelled; they are covered by (b) (the shared request caches are linearizable and '
+                       'single-flight in the model) and by free runs of the real ComputePatches whose attempts answer through a shared stateful linearizable fake client (a real RequestCache)',
+                       'C16_cache_linearizable_partial assumes SetMap only runs while no fetch is in flight; with an overlapping SetMap the cache is NOT linearizable '
+                       '(C16_cache_setmap_overlap_not_linearizable, replayed on the real cache from the corpus)',
+                       'lock discipline of RequestCache.cache/.calls is a kernel-checked table theorem (C16_cache_guarded); requestCacheCall.val/.err are synchronised by sync.WaitGroup, not by mu: '
+                       'race freedom there is OBSERVED (all enumerated cache schedules run under the race detector), not proved',
                        'CmpEqImpliesEq (Compare-equal patches are identical) and "all target versions parse or none does" are explicit hypotheses of C16_final, evaluated on every universe; '
                        'universes violating them are generated on purpose and reported in coverage.hypothesis_violations (results on the real code DO differ across schedules there)',
                        'ConstructPatches is modelled for manifests with distinct requirement names, no new keys, vulnerabilities without subgraphs',
@@ -183,34 +199,58 @@ def run(ctx):
         ctx.extra['ticker_table'] = {'fields': int(m.group(1)), 'funcs': int(m.group(2)), 'accesses': int(m.group(3)), 'ticker_funcs': m.group(4).split(','),
                                      'shared_fields': m.group(5).split(','), 'unguarded_same_goroutine_sites_of_shared_fields': int(m.group(6)), 'irregular': int(m.group(7))}
     conflicts = [l for l in tr_out.split('\n') if l.startswith('CONFLICT ')]
+    # the same translator over clients/datasource/cache.go: fields of RequestCache, guard mu, every method on any goroutine
+    cargs = ['-out', lib.LEAN + '/Scalibr/Gen/CacheAccess.lean', '-ns', 'Scalibr.Gen.CacheAccess', '-struct', 'RequestCache', '-mutex', 'mu', '-anygoroutine',
+             '-only', 'cache.go', '-dir', (getattr(lib, 'ALT_REPO', None) or lib.REPO) + '/clients/datasource']
+    ctr_ok, ctr_out = translib.run_translator(ctx, 'tickerdump', cargs, overlay=False)
+    cm = re.search(r'tickerdump: fields=(\d+) funcs=(\d+) accesses=(\d+) ticker=\[([^\]]*)\] shared=\[([^\]]*)\] unguarded_sites_of_shared_fields=(\d+) irregular=(\d+)', ctr_out)
+    if cm:
+        ctx.extra['cache_table'] = {'fields': int(cm.group(1)), 'funcs': cm.group(4).split(','), 'accesses': int(cm.group(3)), 'mutex_guarded_fields': cm.group(5).split(','),
+                                    'unguarded_sites': int(cm.group(6)), 'irregular': int(cm.group(7))}
+    cache_conflicts = [l for l in ctr_out.split('\n') if l.startswith('CONFLICT ')]
     # 2. the kernel re-checks every obligation, C16_ticker_guarded against the regenerated table
     drv_ok, _ = ctx.lean_build(['drv_c16'])
     # the table obligation lives in its own module (the only one importing Gen/Ticker.lean) and is built and audited on its own,
     # so a source change that breaks it does not take the other theorems down
-    tick_ok, _ = ctx.lean_build(['Scalibr.Properties.C16Ticker'])
-    tick_log = getattr(ctx, 'lean_log', '') if not tick_ok else ''
-    lean_ok_before = ctx.lean_ok
-    ctx.prop = 'C16Ticker'
-    try:
-        ctx.audit(['Scalibr.Properties.C16Ticker'], [TICKER_THEOREM])
-    finally:
-        ctx.prop = 'C16'
-    src_tick = ctx.obligations.get('<source-audit>')
+    iso_logs, src_iso = [], []
+    iso_ok = {}
+    for modname, thm in (('C16Ticker', TICKER_THEOREM), ('C16CacheTable', CACHETABLE_THEOREM)):
+        ctx.lean_ok = True
+        okm, _ = ctx.lean_build(['Scalibr.Properties.' + modname])
+        iso_ok[modname] = okm
+        if not okm:
+            iso_logs.append(getattr(ctx, 'lean_log', ''))
+        ctx.prop = modname
+        try:
+            ctx.audit(['Scalibr.Properties.' + modname], [thm])
+        finally:
+            ctx.prop = 'C16'
+        src_iso.append(ctx.obligations.get('<source-audit>'))
+    tick_ok = iso_ok['C16Ticker']
+    tick_log = '\n'.join(iso_logs)
+    lean_ok_before = all(iso_ok.values())
+    src_tick = next((x for x in src_iso if x and x != 'discharged'), 'discharged')
     ctx.lean_ok = True
     ok, _ = ctx.lean_build(['Scalibr.Properties.C16'])
-    ctx.audit(['Scalibr.Properties.C16'], [t for t in THEOREMS if t != TICKER_THEOREM])
+    ctx.audit(['Scalibr.Properties.C16'], [t for t in THEOREMS if t not in (TICKER_THEOREM, CACHETABLE_THEOREM)])
     if src_tick and src_tick != 'discharged':
         ctx.obligations['<source-audit>'] = src_tick
     ctx.lean_ok = ctx.lean_ok and lean_ok_before
     if ctx.tier == 'thorough':
         if ok:
             ctx.leanchecker('Scalibr.Properties.C16')
-        if tick_ok:
-            ctx.leanchecker('Scalibr.Properties.C16Ticker')
+        for modname, okm in iso_ok.items():
+            if okm:
+                ctx.leanchecker('Scalibr.Properties.' + modname)
     proofs_ok = all(v == 'discharged' for v in ctx.obligations.values())
     ctx.checker_cmd = ('cd /verif/translator && go build -o bin/tickerdump ./cmd/tickerdump && bin/tickerdump && cd /verif/lean && '
-                       'lake build Scalibr.Properties.C16 Scalibr.Properties.C16Ticker drv_c16 && lake env lean Scalibr/Audit/C16.lean && lake env lean Scalibr/Audit/C16Ticker.lean')
+                       'lake build Scalibr.Properties.C16 Scalibr.Properties.C16Ticker Scalibr.Properties.C16CacheTable drv_c16 && lake env lean Scalibr/Audit/C16.lean && '
+                       'lake env lean Scalibr/Audit/C16Ticker.lean && lake env lean Scalibr/Audit/C16CacheTable.lean')
     failed = translib.failing_theorems(ctx, lib.LEAN + '/Scalibr/Properties/C16.lean') if not ok else []
+    if not iso_ok['C16CacheTable']:
+        failed.append('C16_cache_guarded')
+        if cache_conflicts:
+            ctx.notes.append('cache access table: ' + ' || '.join(c[9:] for c in cache_conflicts[:3]))
     if not tick_ok:
         failed.append('C16_ticker_guarded')
         ctx.lean_log = tick_log + '\n' + (getattr(ctx, 'lean_log', '') if not ok else '')
@@ -325,6 +365,23 @@ def run(ctx):
                 ctx.violation('c16gen-race -mode free exited %d: %s' % (p.returncode, p.stderr[-600:]), ['# see notes'], found_input=False, name='race-free-crash')
             if drv_ok:
                 judge_free(ctx, frows, oracle, classify, nontrivial, 'c16gen-race -mode free')
+        # 4a''. ungated Get/GetMap/SetMap from several goroutines on one cache, under the race detector (observation of what
+        # C16_cache_guarded states for the struct fields, and of the WaitGroup-ordered call fields it does not cover)
+        st_seeds = [int(l.split()[1]) for l in open(ctx.replay) if l.startswith('cstress ')] if ctx.replay else [ctx.seed]
+        for ss in st_seeds:
+            e = lib.goenv()
+            e['GORACE'] = 'halt_on_error=1 exitcode=66'
+            p = subprocess.run([race_bin, '-mode', 'cstress', '-seed', str(ss)], stdout=subprocess.PIPE, stderr=subprocess.PIPE, text=True, timeout=600, env=e, errors='replace')
+            races['cache_stress_runs'] = races.get('cache_stress_runs', 0) + 1
+            ctx.add_case('cstress %d' % ss, True, 'cache stress')
+            rep = race_report(p.stderr)
+            if rep or p.returncode != 0:
+                races['reports'] += 1
+                ctx.violation('RequestCache used from several goroutines (Get x4, SetMap, GetMap, no gates): %s' % (rep or 'exit %d: %s' % (p.returncode, p.stderr.strip().split('\n')[0][:200]))
+                              + (' | access table: ' + cache_conflicts[0][9:] if cache_conflicts else ''),
+                              ['cstress %d' % ss] + ['# ' + l for l in p.stderr.split('\n')[:45]], name='race-cstress-%d' % ss)
+            elif 'foreign_values=0' not in p.stdout:
+                ctx.violation('RequestCache returned a value nobody fetched or installed: ' + p.stdout.strip(), ['cstress %d' % ss], name='cstress-%d' % ss)
         if not ctx.replay:
             # 4a. the schedule streams again, under the race detector (results compared with the model as well)
             rn = {'quick': 10, 'thorough': n}[ctx.tier]
